@@ -214,7 +214,9 @@ pub fn check_c01(sc: &H1Scenario, out: &H1Out) -> Vec<Violation> {
                 return vs;
             }
             let want_seen = if in_body { at + 1 } else { at };
-            if co.seen.len() != want_seen {
+            // (actix treats bad chunk syntax like a transport error: the whole connection is torn
+            // down at once, pending handlers included, so fewer requests may have been dispatched)
+            if (in_body && co.seen.len() > want_seen) || (!in_body && co.seen.len() != want_seen) {
                 vs.push(Violation::new(
                     "C01.reject-4xx-close",
                     format!("dispatch-count-{:?}", class),
@@ -228,6 +230,8 @@ pub fn check_c01(sc: &H1Scenario, out: &H1Out) -> Vec<Violation> {
                     }
                     match &s.body_end {
                         BodyEnd::Err(_) => {}
+                        // the handler was dropped with the connection before it could observe the end
+                        BodyEnd::NotRead | BodyEnd::Partial | BodyEnd::DroppedEarly if closed && co.task_done => {}
                         other => vs.push(Violation::new(
                             "C01.reject-4xx-close",
                             format!("bad-chunk-body-ended-{}-{:?}", match other { BodyEnd::Eof => "clean", _ => "open" }, class),
